@@ -112,6 +112,48 @@ func c18Specs() []distSpec {
 
 var c18Shapes = [][]int{{}, {3}, {1}, {5}, {2, 3}, {7}, {3, 3}, {2, 2, 2}, {1, 5}, {4, 5}, {3, 1, 3}, {2, 1, 2, 3}, {9}, {2}, {2, 3, 4, 5}, {1, 2, 3, 2, 2}, {3, 2, 5}, {2, 2, 3, 3}}
 
+// poissonLimit: the smallest k such that a Poisson variable of mean lam exceeds k with probability below p.
+func poissonLimit(lam, p float64) int {
+	if !(lam > 0) {
+		return 0
+	}
+	term, cdf := math.Exp(-lam), 0.
+	for k := 0; k < 1000000; k++ {
+		cdf += term
+		if 1-cdf < p || term == 0 {
+			// 1 - cdf loses its digits near 1: bound the tail by the next terms instead
+			tail, t := 0., term
+			for j := k + 1; j < k+60; j++ {
+				t *= lam / float64(j)
+				tail += t
+			}
+			if tail < p {
+				return k
+			}
+		}
+		term *= lam / float64(k+1)
+	}
+	return int(lam + 10*math.Sqrt(lam) + 10)
+}
+
+// resolution: how many distinct doubles a draw of this spec can take (uniform: the grid of the support, at most 2^53; the
+// normal ziggurat: about 2^32 per sign and layer - normal specs are judged by their own, looser rule).
+func (d distSpec) resolution() float64 {
+	if d.normal {
+		return math.Ldexp(1, 32)
+	}
+	m := math.Max(math.Abs(d.a), math.Abs(d.b))
+	ulp := math.Nextafter(m, math.Inf(1)) - m
+	r := (d.b - d.a) / ulp
+	if !(r < math.Ldexp(1, 53)) {
+		r = math.Ldexp(1, 53)
+	}
+	if r < 1 {
+		r = 1
+	}
+	return r
+}
+
 func (d distSpec) cdf(x float64) float64 {
 	if d.normal {
 		return 0.5 * (1 + math.Erf((x-d.a)/(d.b*math.Sqrt2)))
@@ -409,6 +451,14 @@ func c18LongHistory(k *fw.K, d distSpec, n int) {
 	seen := make(map[[4]uint64]int, n)
 	repeats := 0
 	for i := 0; i < n; i++ {
+		if i%97 == 5 { // a REFUSED call in between (sizes whose product is negative, zero or tiny): it draws nothing and disturbs nothing
+			bad := [][]int{{-4}, {2, -2}, {-1, 4}, {0}, {-1}, {-2, -2}, {4, -1}}[(i/97)%7]
+			if t, err := d.init(bad); err == nil && t != nil {
+				k.Failf("%s.Init(%v) was accepted", name, bad)
+				return
+			}
+			k.Count("refused_calls_inside_long_histories", 1)
+		}
 		t, err := d.init([]int{4})
 		if err != nil || t == nil {
 			k.Failf("%s.Init([4]) call %d: %v", name, i, err)
@@ -515,6 +565,7 @@ func c18Full(k *fw.K) {
 		want float64
 	}{{initializers.NewFull(nil), 0}, {f1, -3.5}, {f2, 1e10},
 		// constants that agree in their leading digits (or differ only far behind the point), on the same shapes right after one another
+		{initializers.NewFull(&initializers.FullConfig{Value: 1}), 1}, {initializers.NewFull(&initializers.FullConfig{Value: 0}), 0}, {initializers.NewFull(&initializers.FullConfig{Value: -1}), -1},
 		{initializers.NewFull(&initializers.FullConfig{Value: 1e-7}), 1e-7}, {initializers.NewFull(&initializers.FullConfig{Value: 0.2500004}), 0.2500004},
 		{initializers.NewFull(&initializers.FullConfig{Value: 0.25}), 0.25}, {initializers.NewFull(&initializers.FullConfig{Value: 0.25000000000000006}), 0.25000000000000006},
 		{initializers.NewFull(&initializers.FullConfig{Value: -1e-300}), -1e-300}, {initializers.NewFull(&initializers.FullConfig{Value: 1e10 + 1e-5}), 1e10 + 1e-5},
@@ -572,6 +623,7 @@ func c18Dist(k *fw.K, d distSpec, target int) {
 	var all, pos0, posLast, p0pair, p1pair []float64
 	var prev *ref.T
 	equalPos, comparedPos := 0, 0
+	totalDups, expectedDups := 0, 0.
 	calls := 0
 	disturbers := []func(s []int) (tensor.Tensor, error){
 		func(s []int) (tensor.Tensor, error) { return tensor.RandN(s, 1000, 500, nil) },
@@ -655,8 +707,15 @@ func c18Dist(k *fw.K, d distSpec, target int) {
 				seen[math.Float64bits(v)] = true
 			}
 			dups := len(x.Data) - len(seen)
-			if (!d.normal && dups > 0) || dups > 1+len(x.Data)/50 {
-				k.Failf("%s.Init(%v): only %d distinct values among %d elements of one tensor: element positions share draws", name, shape, len(seen), len(x.Data))
+			// a uniform draw is one of R = (upper - lower) / ulp representable doubles (at most 2^53): two of n independent draws coincide
+			// with probability n(n-1)/2R - nothing for [0,1), noticeable over a long run for an interval of width 1e-4 around 1000. Repeats
+			// are counted over the whole run and held against that expectation; one tensor may not hold more than a chance coincidence.
+			nn := float64(len(x.Data))
+			lam := nn * (nn - 1) / 2 / d.resolution()
+			expectedDups += lam
+			totalDups += dups
+			if (!d.normal && dups > 0 && lam < 1e-10) || (!d.normal && float64(dups) > 2+20*lam) || dups > 1+len(x.Data)/50 {
+				k.Failf("%s.Init(%v): only %d distinct values among %d elements of one tensor (%.3g coincidences expected at the resolution of the interval): element positions share draws", name, shape, len(seen), len(x.Data), lam)
 				return
 			}
 		}
@@ -703,9 +762,15 @@ func c18Dist(k *fw.K, d distSpec, target int) {
 		return
 	}
 	k.Count("statistical_checks", 2)
+	if !d.normal && totalDups > poissonLimit(expectedDups, 1e-10) {
+		k.Failf("%s: %d repeated values inside tensors over the whole run, %.3g expected at the resolution of the interval: element positions share draws", name, totalDups, expectedDups)
+		return
+	}
 	limit := 0
 	if d.normal {
 		limit = comparedPos / 100
+	} else if lam := float64(comparedPos) / d.resolution(); lam > 1e-10 {
+		limit = poissonLimit(lam, 1e-10) // chance agreements at the resolution of a narrow interval
 	}
 	if equalPos > limit {
 		k.Failf("%s: draws are not fresh: consecutive tensors agree at %d of %d compared positions", name, equalPos, comparedPos)
